@@ -1,6 +1,7 @@
 /- C08 / C09 / C13 tie: chain and take scenarios over scripted read-writers -/
 import FBV.Drv.Wire
 import FBV.Model.Adapters
+import FBV.Spec.SatV
 namespace FBV.DrvAD
 open FBV FBV.Wire
 
@@ -32,8 +33,16 @@ def srw? (s : String) : Option SRW :=
            wacts := (← (listOf wa).mapM wact?), facts := (← (listOf fa).mapM fact?) }
   | _ => none
 
+/-- `R<l1>+<l2>+..` / `W<hex>+<hex>+..`: the vectored calls, which by the traits' default implementations are a
+    `read` into / a `write` of the first non-empty slice -/
 def adop? (t : String) : Option AdOp :=
   if t == "f" then some .flush
+  else if t.startsWith "R" then
+    let body := (t.drop 1).toString
+    if body == "" then some (.read 0) else ((body.splitOn "+").mapM String.toNat?).map fun l => .read (firstNELen l)
+  else if t.startsWith "W" then
+    let body := (t.drop 1).toString
+    if body == "" then some (.write []) else ((body.splitOn "+").mapM unhex?).map fun l => .write (firstNE l)
   else if t.startsWith "r" then (t.drop 1).toString.toNat?.map .read
   else if t.startsWith "w" then (unhex? (t.drop 1).toString).map .write
   else none
